@@ -6,6 +6,20 @@ import os
 ROOT = os.path.dirname(os.path.dirname(os.path.abspath(__file__)))
 
 CLAIMED = {
+    "C03": dict(
+        category="model_checking",
+        technique="TLA+ declarative scope search vs operational last-writer-wins table + popping walk (TLC, every "
+                  "arrangement) + every arrangement x reference rendered, compiled and its binding compared; alias-chain "
+                  "machine vs reachability; find_element retrieval on simulate-mode programs",
+        text="NameTable.tla states the scoping rule declaratively (Designated) and operationally (Table/Walk as in "
+             "find_node_with_scope); TLC checks BindingIsDesignated and OrderIndependent on 135 k (thorough 1.7 M) "
+             "arrangement x reference combinations and prints each with the required outcome (bound to which scoped "
+             "entity, E033, E017); the harness compiles and reads the binding from TypeRef::definition / bases / "
+             "underlying. Alias chains (every function over <= 3/4 aliases x attribute pattern x 7 terminals) must "
+             "resolve to the final target with attributes accumulated in order, or give exactly E019/E033. Every "
+             "definition, field, enumerator and operation of generated programs is retrieved with find_element.",
+        note="Collision-free arrangements only (collisions are C15). Parameters are not part of the retrieval clause.",
+        design_ref="5 (C03), 4 (NameTable, TypePatch)"),
     "C09": dict(
         category="model_checking",
         technique="token printer with a modelled cursor (TLA+): expected span facts per element path for simulate-mode "
